@@ -847,6 +847,12 @@ impl WebRtcConnection {
             "received channel data",
         );
 
+        // Nothing that is received over a closing channel is used, don't buffer it.
+        if let Some(ChannelState::Closing) = self.channels.get(&channel_id) {
+            self.recv_buffers.remove(&channel_id);
+            return Ok(());
+        }
+
         self.recv_buffers.entry(channel_id).or_default().extend_from_slice(&data);
 
         loop {
@@ -854,14 +860,58 @@ impl WebRtcConnection {
                 return Ok(());
             };
 
-            let Some(body) = extract_framed_message(buffer)? else {
-                return Ok(());
+            let body = match extract_framed_message(buffer) {
+                Ok(Some(body)) => body,
+                Ok(None) => return Ok(()),
+                Err(error) => {
+                    // The framing of the channel is lost for good: drop what was buffered and
+                    // close the channel instead of buffering everything the remote sends.
+                    self.recv_buffers.remove(&channel_id);
+                    self.on_framing_error(channel_id).await;
+                    return Err(error.into());
+                }
             };
 
             self.dispatch_framed_message(channel_id, body).await?;
             // If the channel was closed/removed during dispatch, stop draining its buffer.
             if !self.channels.contains_key(&channel_id) {
                 return Ok(());
+            }
+        }
+    }
+
+    /// Close a channel whose inbound framing is broken.
+    async fn on_framing_error(&mut self, channel_id: ChannelId) {
+        match self.channels.remove(&channel_id) {
+            None => {}
+            Some(ChannelState::Closing) => {
+                self.channels.insert(channel_id, ChannelState::Closing);
+            }
+            Some(ChannelState::OutboundOpening { context, .. }) => {
+                let _ = self
+                    .protocol_set
+                    .report_substream_open_failure(
+                        context.protocol,
+                        context.substream_id,
+                        SubstreamError::NegotiationError(
+                            crate::error::NegotiationError::ParseError(
+                                crate::error::ParseError::InvalidData,
+                            ),
+                        ),
+                    )
+                    .await;
+
+                self.rtc.direct_api().close_data_channel(channel_id);
+                self.channels.insert(channel_id, ChannelState::Closing);
+            }
+            Some(ChannelState::InboundOpening { .. }) => {
+                self.rtc.direct_api().close_data_channel(channel_id);
+                self.channels.insert(channel_id, ChannelState::Closing);
+            }
+            Some(ChannelState::Open { .. }) => {
+                self.rtc.direct_api().close_data_channel(channel_id);
+                self.channels.insert(channel_id, ChannelState::Closing);
+                self.handles.remove(&channel_id);
             }
         }
     }
